@@ -120,15 +120,15 @@ Definition real_ops (ops : list sx) : list sx := filter (fun o => match o with S
 (* walk the case and the implementation's events in lock step.  Protocol: an observation marker (SA 1) yields one
    EvBytes; every successful operation yields exactly one EvNum (the returned handle, 0 if the API returns none);
    a refusal yields EvPanic and ends the observations.  [judge img prefix] is asked at every observation. *)
-Fixpoint judge_history (returns : sx -> bool) (judge : list N -> list sx -> bool) (handle_ok : list N -> N -> list sx -> bool)
-         (rprefix : list sx) (ops : list sx) (evs : list ev) (pending : list (N * list sx)) : bool :=
+Fixpoint judge_history (returns : sx -> bool) (judge : list N -> list sx -> bool) (handles_ok : list N -> list (N * nat) -> bool)
+         (rprefix : list sx) (ops : list sx) (evs : list ev) (pending : list (N * nat)) : bool :=
   match ops with
   | [] => match evs with [] => true | _ => false end
   | SA _ :: r =>
       match evs with
       | EvBytes img :: evs' =>
-          judge img (frev rprefix) && forallb (fun hp => handle_ok img (fst hp) (frev (snd hp))) pending
-          && judge_history returns judge handle_ok rprefix r evs' pending
+          judge img (frev rprefix) && handles_ok img pending
+          && judge_history returns judge handles_ok rprefix r evs' pending
       | [EvPanic] => true          (* refusal is judged by the caller (is the prefix in the spec's domain?) *)
       | _ => false
       end
@@ -136,8 +136,8 @@ Fixpoint judge_history (returns : sx -> bool) (judge : list N -> list sx -> bool
       match evs with
       | [EvPanic] => true
       | EvNum h :: evs' =>
-          judge_history returns judge handle_ok (o :: rprefix) r evs'
-                        (if returns o then (h, rprefix) :: pending else pending)
+          judge_history returns judge handles_ok (o :: rprefix) r evs'
+                        (if returns o then (h, length rprefix) :: pending else pending)
       | _ => false
       end
   end.
@@ -171,11 +171,23 @@ Definition c04_oracle (ts : tspec) (c : sx) (evs : list ev) : bool :=
       judge_history (ts_returns ts) (fun img prefix => match ts_image ts ctor prefix with
                                        | Some r => list_N_eqb img r
                                        | None => true end)
-                    (fun _ _ _ => true) [] ops evs []
+                    (fun _ _ => true) [] ops evs []
       && match refused_at [] ops evs with
          | Some prefix => match ts_image ts ctor prefix with Some _ => false | None => true end
          | None => true
          end
+  end.
+
+(* C18 (cases from the oversize generators only, where leaving the Spec's domain means 'a count or length does not fit its
+   field'): an image may only be returned for an in-domain prefix, and then it is the reference image *)
+Definition c18_oracle (ts : tspec) (c : sx) (evs : list ev) : bool :=
+  match case_parts c with
+  | None => false
+  | Some (ctor, ops) =>
+      judge_history (ts_returns ts) (fun img prefix => match ts_image ts ctor prefix with
+                                                       | Some r => list_N_eqb img r
+                                                       | None => false end)
+                    (fun _ _ => true) [] ops evs []
   end.
 
 (* C03: the walk from the first-entry offset tiles the body exactly with the entries that were added *)
@@ -196,23 +208,26 @@ Definition c03_judge (ts : tspec) (ctor : sx) (img : list N) (prefix : list sx) 
 Definition c03_oracle (ts : tspec) (c : sx) (evs : list ev) : bool :=
   match case_parts c with
   | None => false
-  | Some (ctor, ops) => judge_history (ts_returns ts) (c03_judge ts ctor) (fun _ _ _ => true) [] ops evs []
+  | Some (ctor, ops) => judge_history (ts_returns ts) (c03_judge ts ctor) (fun _ _ => true) [] ops evs []
   end.
 
-(* C05: a handle returned after [prefix] operations is the offset at which the node added by the next
-   operation starts, in every later image *)
-Definition c05_handle_ok (ts : tspec) (ctor : sx) (img : list N) (h : N) (prefix : list sx) : bool :=
-  match ts_walk ts, ts_entries ts ctor prefix with
-  | Some (first, eh), Some before =>
-      match walk (S (length img)) eh first (skipn first img) with
-      | Some found =>
-          match nth_error found (length before) with
-          | Some (_, off, _) => N.of_nat off =? h
-          | None => false
-          end
-      | None => false
-      end
-  | _, _ => true
+(* C05: a handle returned by the k-th operation (k = number of operations before it) is the offset at which the k-th
+   entry starts, in every later image.  The image is walked once per observation. *)
+Definition c05_handles_ok (ts : tspec) (img : list N) (pending : list (N * nat)) : bool :=
+  match pending with
+  | [] => true
+  | _ =>
+    match ts_walk ts with
+    | Some (first, eh) =>
+        match walk (S (length img)) eh first (skipn first img) with
+        | Some found =>
+            forallb (fun hk => match nth_error found (snd hk) with
+                               | Some (_, off, _) => N.of_nat off =? fst hk
+                               | None => false end) pending
+        | None => false
+        end
+    | None => true
+    end
   end.
 
 Definition c05_oracle (ts : tspec) (c : sx) (evs : list ev) : bool :=
@@ -222,7 +237,7 @@ Definition c05_oracle (ts : tspec) (c : sx) (evs : list ev) : bool :=
       judge_history (ts_returns ts) (fun img prefix => match ts_image ts ctor prefix with
                                        | Some r => list_N_eqb img r
                                        | None => true end)
-                    (c05_handle_ok ts ctor) [] ops evs []
+                    (c05_handles_ok ts) [] ops evs []
   end.
 
 (* a specification that judges nothing (placeholder for components without a table spec) *)
